@@ -359,9 +359,10 @@ def main():
     if res["corr"]:
         broken.append({"kind": "correspondence", "message": "%d case(s) where model and implementation differ" % len(res["corr"]),
                        "cases": [cases[i][1][:400] for i in res["corr"][:5]]})
-    if spec.get("max_skipped") is not None and len(res["skipped"]) > spec["max_skipped"]:
-        broken.append({"kind": "correspondence-run", "message": "%d case(s) fell outside the model (at most %d expected)" % (len(res["skipped"]), spec["max_skipped"]),
-                       "cases": [cases[i][1][:400] for i in res["skipped"][:3]]})
+    conn_skipped = [i for i in res["skipped"] if cases[i][2] == "conn"]
+    if spec.get("max_skipped") is not None and len(conn_skipped) > spec["max_skipped"]:
+        broken.append({"kind": "correspondence-run", "message": "%d connection case(s) fell outside the model (at most %d expected)" % (len(conn_skipped), spec["max_skipped"]),
+                       "cases": [cases[i][1][:400] for i in conn_skipped[:3]]})
     if res["unevaluated"]:
         broken.append({"kind": "correspondence-run", "message": "%d case(s) not evaluated" % res["unevaluated"]})
 
